@@ -626,77 +626,93 @@ func (s String) M__contains__(item Object) (Object, error) {
 	return NewBool(strings.Contains(string(s), string(needle))), nil
 }
 
+// stringIndices converts the optional start and end arguments of find,
+// count, startswith and endswith (None or an integer, interpreted as in
+// slice notation) into character positions clipped like a slice would
+// clip them.  beg may be greater than end or than length: callers
+// treat that as an empty range which can't contain anything, not even
+// the empty string.
+func stringIndices(pybeg, pyend Object, length int) (beg, end int, err error) {
+	beg, end = 0, length
+	if pybeg != nil && pybeg != None {
+		beg, err = IndexInt(pybeg)
+		if err != nil {
+			return 0, 0, err
+		}
+	}
+	if pyend != nil && pyend != None {
+		end, err = IndexInt(pyend)
+		if err != nil {
+			return 0, 0, err
+		}
+	}
+	if end > length {
+		end = length
+	} else if end < 0 {
+		end += length
+		if end < 0 {
+			end = 0
+		}
+	}
+	if beg < 0 {
+		beg += length
+		if beg < 0 {
+			beg = 0
+		}
+	}
+	return beg, end, nil
+}
+
 func (s String) Count(args Tuple) (Object, error) {
 	var (
 		pysub Object
-		pybeg Object = Int(0)
-		pyend Object = Int(s.len())
-		pyfmt        = "s|ii:count"
+		pybeg Object
+		pyend Object
+		pyfmt = "s|OO:count"
 	)
 	err := ParseTuple(args, pyfmt, &pysub, &pybeg, &pyend)
 	if err != nil {
 		return nil, err
 	}
-
-	var (
-		beg  = int(pybeg.(Int))
-		end  = int(pyend.(Int))
-		size = s.len()
-	)
-	if beg > size {
-		beg = size
+	size := s.len()
+	beg, end, err := stringIndices(pybeg, pyend, size)
+	if err != nil {
+		return nil, err
 	}
-	if end < 0 {
-		end = size
+	sub := pysub.(String)
+	if end-beg < sub.len() {
+		return Int(0), nil
 	}
-	if end > size {
-		end = size
-	}
-
-	var (
-		str = string(s.slice(beg, end, s.len()))
-		sub = string(pysub.(String))
-	)
-	return Int(strings.Count(str, sub)), nil
+	str := string(s.slice(beg, end, size))
+	return Int(strings.Count(str, string(sub))), nil
 }
 
 func (s String) find(args Tuple) (Object, error) {
 	var (
 		pysub Object
-		pybeg Object = Int(0)
-		pyend Object = Int(s.len())
-		pyfmt        = "s|ii:find"
+		pybeg Object
+		pyend Object
+		pyfmt = "s|OO:find"
 	)
 	err := ParseTuple(args, pyfmt, &pysub, &pybeg, &pyend)
 	if err != nil {
 		return nil, err
 	}
-
-	var (
-		beg  = int(pybeg.(Int))
-		end  = int(pyend.(Int))
-		size = s.len()
-	)
-	if beg > size {
-		beg = size
+	size := s.len()
+	beg, end, err := stringIndices(pybeg, pyend, size)
+	if err != nil {
+		return nil, err
 	}
-	if end < 0 {
-		end = size
+	sub := pysub.(String)
+	if end-beg < sub.len() {
+		return Int(-1), nil
 	}
-	if end > size {
-		end = size
-	}
-
-	var (
-		off = s.slice(0, beg, s.len()).len()
-		str = string(s.slice(beg, end, s.len()))
-		sub = string(pysub.(String))
-		idx = strings.Index(str, sub)
-	)
+	str := string(s.slice(beg, end, size))
+	idx := strings.Index(str, string(sub))
 	if idx < 0 {
-		return Int(idx), nil
+		return Int(-1), nil
 	}
-	return Int(off + String(str[:idx]).len()), nil
+	return Int(beg + String(str[:idx]).len()), nil
 }
 
 func (s String) Split(args Tuple, kwargs StringDict) (Object, error) {
